@@ -112,3 +112,25 @@ Theorem C17_dsaPriv_roundtrip : forall k x t, pub_ok k -> mpi_ok x ->
   dsaPriv_parse (dsaPriv_ser k x ++ t) = Some (t, k, x).
 Proof. exact dsaPriv_roundtrip. Qed.
 Print Assumptions C17_dsaPriv_roundtrip.
+
+(* libotr key files: what ExportKeysToFile writes, ImportKeys reads back as the same accounts (every name without a double
+   quote, every protocol that is a symbol, every number including nil and negative ones), and DSAPrivateKey.Import reads
+   the numbers of the first key back whatever their digit counts *)
+From OTR Require Import Bytes.Strconv Bytes.Sexp Bytes.KeyFile Bytes.KeyFileProofs.
+Theorem C17_keyfile_roundtrip : forall acs, Forall acct_ok acs -> importKeys (exportAccounts acs) = Some (Some acs).
+Proof. exact importKeys_exportAccounts. Qed.
+Print Assumptions C17_keyfile_roundtrip.
+
+Theorem C17_keyfile_import_first_key : forall a rest p q g y x, no35 (aName a) -> no35 (aProto a) ->
+  aKey a = {| dP := Some (false, p); dQ := Some (false, q); dG := Some (false, g); dY := Some (false, y); dX := Some (false, x) |} ->
+  import_priv (exportAccounts (a :: rest)) = Some [p; q; g; y; x].
+Proof. exact import_priv_export. Qed.
+Print Assumptions C17_keyfile_import_first_key.
+
+Theorem C17_keyfile_hypotheses_met : Forall acct_ok [ex_account].
+Proof. exact ex_account_ok. Qed.
+Print Assumptions C17_keyfile_hypotheses_met.
+Example C17_keyfile_example :
+  importKeys (exportAccounts [ex_account; ex_account]) = Some (Some [ex_account; ex_account]) /\
+  import_priv (exportAccounts [ex_account]) = Some [4095; 0; 16; 7; 2748].
+Proof. split; vm_compute; reflexivity. Qed.
